@@ -67,6 +67,10 @@ CHECKS = {
    technique="exhaustive syscall-level fault enumeration through an LD_PRELOAD shim (every write(2) index on fd 1 x errno / short write) plus a real pipe whose consumer leaves at enumerated byte counts while xt is provably blocked in write",
    text="For every scenario (all targets, output sizes around the 8 KiB buffer and several pipe capacities, file and stdin input, one and several inputs) and EVERY write call index on stdout: EPIPE ends xt by SIGPIPE with empty stderr (never exit 0), ENOSPC/EIO end it with status 1 and an 'xt error' message, a short write loses nothing; a real consumer that takes k bytes and leaves (k enumerated, xt pinned in a blocked write) gives the same; /dev/full gives status 1 and a message.",
    note="Trusted: the shim (checked transparent when idle, and seen to intercept writes by the dry run), /proc/<pid>/syscall as evidence that xt is blocked in write(1). Kernel-internal timing races are not explored; Linux only."),
+ "C17": dict(cat="fault_enumeration", design="4.17",
+   technique="exhaustive fault enumeration on the real code compiled with AddressSanitizer inside crash-isolated workers (read schedules, reader error at every offset, over-reporting readers of every excess at every read index, parser/chunker abandoned at every event/document), with per-operation live-heap accounting for leaks",
+   text="For every enumerated YAML input: every schedule within the bound (with 'fail now' at every read), a reader error at every offset, early drops of the parser after every event and of the chunker after every document, and over-reporting readers of every listed excess at each early read index, fed to the parser, chunker, re-encoder and public API - no AddressSanitizer report (worker death), every outcome Ok / Err / caught panic, and the live heap returns to its previous level (a repeated leak is a violation).",
+   note="ASan does not see uninitialised reads or aliasing violations (Miri is discussed in DESIGN.md). Leak accounting relies on the harness's counting allocator; the one known leak class (a panic unwinding through libyaml frames) is listed in KNOWN_FINDINGS.txt."),
  "C18": dict(cat="exploration", design="4.18",
    technique="exhaustive enumeration of nesting depths in a window around each format's limit x periodic nesting shapes x targets x supply modes on the real library, plus far depths through the real debug and release binaries",
    text="For every nesting shape up to the period bound and every depth in the window around each limit: verdicts are monotone in depth, identical for slice and reader and with detection; MessagePack accepts exactly 1023 collections around a scalar in both modes and its slice pre-pass agrees with an independent decoder; the debug and release binaries survive (exit 0/1, no signal) limit-1, limit, limit+1 and depths up to 10^6 from a file (mmap) and from stdin.",
